@@ -1,3 +1,4 @@
+#![cfg_attr(kani, feature(allocator_api))]
 mod frame_store;
 mod render;
 mod state;
